@@ -12,25 +12,31 @@ from par import pmap
 PROP = "C04"
 PROPERTY_FILES = ["Properties/C04.v"]
 META = dict(
-    level_text="Theorems (Coq): in the abstract replication system over the status lattice (Absent < Active(index, "
-               "history size) < Halted < Completed) - local steps grow statuses and announce every change, a delivered "
+    level_text="Theorems (Coq, all closed): (1) abstract replication system over the status lattice (Absent < Active(index, "
+               "history size) < Halted < Completed): local steps grow statuses and announce every change, a delivered "
                "message is ANY list of previously announced facts joined in by maximum (delay, reordering across peers, "
-               "duplication, re-delivery, backlog merge, snapshots) - for EVERY execution, once all announcements have "
-               "reached the n instances they all hold every run at the same status; completion beats halt beats "
-               "progress, nothing moves backwards, a run completed anywhere is completed everywhere. PARTIAL tie to the "
-               "decider model: the refinement premises P1 (local step monotone and truthful w.r.t. status) and P2 "
-               "(remote_apply = max with the message's statuses) are checked by the harness on every generated step of "
-               "implementation and model (status evaluated in Coq), supported by proved per-step theorems "
-               "(no resurrection, updates never backwards, precedence).",
+               "duplication, re-delivery, backlog merge, snapshots): for EVERY execution, once all announcements have "
+               "reached the n instances they hold every run at the same status; completion beats halt beats progress; "
+               "nothing moves backwards; completed anywhere => completed everywhere. (2) The DECIDER MODEL is an instance "
+               "of that system - proved: P1 a local step only grows cstatus and its note names every changed run with "
+               "its new status; P2 cstatus after remote_apply = join of the status before and the facts of the message - "
+               "for non-singleton patterns, finished-run memory on and with room, messages whose records name existing "
+               "patterns consistently with each run id's owner; hence C04_model_convergence for every execution of the "
+               "decider model (local events anywhere, deliveries of any well-formed message made of announced facts). "
+               "Tie: every instance's operation sequence of every explored schedule is replayed on the model inside Coq "
+               "(outputs and status traces compared), the theorem's hypotheses (owner consistency of run ids, P1, P2) "
+               "are checked on every step of the implementation, and equality at quiescence is checked directly.",
     level_note="Trusted: Coq kernel; harness. Stated for non-singleton patterns, finished-run memory enabled and not "
                "overflowing, per-link FIFO delivery with re-delivery. The network is simulated at note level (serialised "
-               "records), tcp.py's own behaviour is C06/C10/C15.",
+               "records); tcp.py's own behaviour is C06/C10/C15.",
     rule="2..3 real deciders; schedules over {input datum at i, deliver next message on link i->j, re-deliver the last "
          "message of a link}: exhaustive to depth 5 for a small stream, seeded random to depth 30-40, then all links "
          "flushed; patterns with halt conditions, loops, 3..4 blocks, non-singleton; non-trivial = some run was changed "
          "on two different instances",
     trusted_base=["harness/sim_cluster.py, sim_decider.py"],
-    assumptions=["per-link FIFO order (one TCP connection per message, sequential sender loop)", "run ids unique across instances (C16)"])
+    assumptions=["per-link FIFO order (one TCP connection per message, sequential sender loop)", "run ids unique across instances (C16)",
+                 "theorem hypotheses: non-singleton patterns, memory with room, wf_msg (records name existing patterns, "
+                 "one owner pattern per run id), note_owned"])
 
 IMPORTS = SD.IMPORTS + " Model.Converge"
 
@@ -117,6 +123,14 @@ def work(sc):
     fail = None
     pos = 0
     changed_at = {}
+    owner = {}
+
+    def check_owner(records):
+        nonlocal fail
+        for r in records:
+            key = (r.phenomenon_name, r.pattern_name)
+            if owner.setdefault(r.run_id, key) != key and fail is None:
+                fail = dict(signature="run-id-names-two-patterns", what="run id %s is used for %s and %s" % (r.run_id, owner[r.run_id], key))
 
     def all_ids():
         s = set(ids_seen)
@@ -135,6 +149,7 @@ def work(sc):
         ops[i].append(("local", et))
         outs[i] += o
         comp, halt, upd = lists
+        check_owner(comp + halt + upd)
         for r in comp + halt + upd:
             if r.run_id not in ids_seen:
                 ids_seen.append(r.run_id)
